@@ -203,6 +203,24 @@ PROPS["C20"] = dict(
     ],
 )
 
+PROPS["C16"] = dict(
+    title="Proofs of possession are sound and domain-separated from every signature",
+    rule=("keys from the structured pool; the PoP hasher is rebuilt independently from the documented suite string (and its KMAC output cross-checked with the SP 800-185 oracle); expected PoP := compress(sk·H_pop(pk bytes)); ~25 candidate strings plus another key's PoP; "
+          "three kinds of identity key; for generated and crafted tags (empty, long, every prefix/suffix of the two suite strings, the PoP suite itself, tags making tag||SIG-suite share a prefix or suffix with the PoP suite) the signature of the public-key bytes (and of a generated message) "
+          "must not verify as a PoP and the PoP must not verify as a signature. Non-trivial = crafted tag, or a candidate set with an accepted and a curve-point-rejected member; distinct by draw-record hash."),
+    assumptions=BLS_ASSUME,
+    jobs=[J("TestC16_PoP", 200, 1500, shards=10), J("TestC16_NonBLS", 50, 200, shards=1)],
+)
+
+PROPS["C17"] = dict(
+    title="SPoCK verification holds exactly for proofs of one message under claimed keys",
+    rule=("scalars x1, x2 (equal, negated, distinct), base B = H(data) via sk = 1, proofs p1 = a·B, p2 = b·B' built by the oracle with (a, b) honest, scaled by a common factor, attributed to the wrong key, zero, unrelated, off by one; B' = B or the image of other data; "
+          "expected verdict := a·x2 ≡ b·x1 (mod r) on one base, both-identity on independent bases; each pair also swapped; the first proof replaced by ~25 structured candidates (non-canonical / outside G1 must be rejected); identity keys; SPOCKProve = Sign and SPOCKVerifyAgainstData = Verify; non-BLS keys and bad hashers give typed errors. "
+          "Non-trivial = accepted without being the honest pair, or rejected although both proofs are non-identity G1 points; distinct by draw-record hash."),
+    assumptions=BLS_ASSUME + ["two hash-to-curve images of different data are treated as independent bases (unknown discrete-log relation)"],
+    jobs=[J("TestC17_Verify", 250, 1500, shards=10), J("TestC17_NonBLS", 50, 200, shards=1)],
+)
+
 
 import c15_overlay
 import c20_build
